@@ -39,6 +39,9 @@ conditions that release on its own state captured before (weave_fmt's all-in-one
 Added while testing against seeded changes: K8-failed-release-forgets: a failing physical unlock on the last unlock
 propagates and leaves CountedLock / LockableFiles unlocked; K3-acquisition-unwinds: (git sibling: GitWorkingTree._lock_write_tree records mode/count only after index.lock is held;) DirStateWorkingTree.lock_read /
 _lock_self_write release the control-files lock and the branch when a later acquisition step fails.
+K9 (fourth round, two instances with a failing history each): GitBranch.lock_write and RemoteBranch.lock_write catch a failing
+repository.lock_write() after their own lock was taken, give the own lock back and re-raise. K10: every unlock that counts
+_locks/_lock_count down refuses at zero (10 methods).
 Does not decide: Repository/Branch/WorkingTree objects built on these wrappers (they delegate), nor failures of the
 unrelated calls made while locking.
 """
@@ -441,6 +444,54 @@ def run(ctx):
             others = sorted({call_recv(c) for c in in_finally})
             ctx.check("K8-overunlock-leaves-others", f"{rel_}:{q_}", guard_first or cond_ok, f"{q_}: an unmatched unlock cannot reach {others}.unlock()", construct="; ".join(f"L{c.lineno}:{norm(c)}" for c in in_finally), message=f"{q_} unlocks {others} in a finally clause even when it was not locked itself (no not-held guard up front, and the release is not conditioned on its own state before the unlock): `x.unlock()` on an unlocked object is refused with LockNotHeld and nevertheless takes away a lock somebody else holds on the shared {others[0].split('.')[-1].lstrip('_')} object — its physical lock is released before the matching last unlock")
     ctx.require(n_comp >= 5, f"only {n_comp} unlock methods releasing another lockable in a finally clause found (hand-confirmed: 6)")
+    # ---- K9: a lock method that has recorded its own lock undoes it when locking the object it depends on fails -----------
+    STATE = ("self._lock_mode", "self._lock_count", "self._locks", "self._lock_token")
+
+    def _touches_state(node):
+        return any(isinstance(n, (ast.Assign, ast.AugAssign)) and any(norm(t_) in STATE or any(norm(e) in STATE for e in getattr(t_, "elts", [])) for t_ in (n.targets if isinstance(n, ast.Assign) else [n.target])) for n in ast.walk(node)) or any(call_attr(c) in ("unlock", "_unlock_ref", "_unlock") and call_recv(c) == "self" for c in ast.walk(node) if isinstance(c, ast.Call))
+
+    #: (file, method, inner lock call) — confirmed by a failing history each (findings/C28_*_lock_write_leak.py).  BzrBranch.lock_write is
+    #: the sibling with the other order (repository first, own lock in a try that gives the repository back) and is covered by K3.
+    K9 = [
+        ("breezy/git/branch.py", "GitBranch.lock_write", "self.repository.lock_write"),
+        ("breezy/bzr/remote.py", "RemoteBranch.lock_write", "self.repository.lock_write"),
+    ]
+    for rel_, q_, inner in K9:
+        f_ = repo.func(rel_, q_)
+        parents_ = {}
+        for n in ast.walk(f_):
+            for ch in ast.iter_child_nodes(n):
+                parents_[id(ch)] = n
+        sites = [c for c in ast.walk(f_) if isinstance(c, ast.Call) and norm(c.func) == inner]
+        ctx.require(bool(sites), f"{rel_}:{q_}: {inner}(...) not found")
+        # the first-acquisition site: the one that follows the call that takes this object's own lock
+        guarded = []
+        for c in sites:
+            cur, ok_ = c, False
+            while id(cur) in parents_:
+                par = parents_[id(cur)]
+                if isinstance(par, ast.Try) and any(any(cur is y for y in ast.walk(x)) for x in par.body):
+                    if any(_touches_state(ast.Module(body=h.body, type_ignores=[])) and any(isinstance(r_, ast.Raise) for b in h.body for r_ in ast.walk(b)) for h in par.handlers):
+                        ok_ = True
+                cur = par
+            guarded.append(ok_)
+        ctx.check("K9-own-lock-undone-when-dependency-refuses", f"{rel_}:{q_}", any(guarded), f"a failing {inner}() after this object's own lock was taken is caught, the own lock is given back and the error re-raised", construct=f"{inner} guarded: {guarded}", message=f"{q_} takes its own lock (and records it) and then calls {inner}() without a handler that undoes the first step: when the second lock is refused (ReadOnlyError on a read-locked repository, contention) the branch stays locked — physically, so every other process gets LockContention — although lock_write() raised")
+    # ---- K10: an unlock that counts down refuses at zero ----------------------------------------------------------------
+    n_cnt = 0
+    for rel_ in repo.python_files():
+        if "/tests/" in rel_ or not rel_.startswith("breezy/") or "def unlock" not in repo.text(rel_):
+            continue
+        for q_, f_ in repo.module(rel_).functions().items():
+            if not q_.endswith(".unlock"):
+                continue
+            decs = [n for n in ast.walk(f_) if isinstance(n, ast.AugAssign) and isinstance(n.op, ast.Sub) and norm(n.target) in ("self._locks", "self._lock_count")]
+            if not decs:
+                continue
+            n_cnt += 1
+            var = norm(decs[0].target)
+            refuse = [i for i in ast.walk(f_) if isinstance(i, ast.If) and any(isinstance(x, (ast.Raise, ast.Return)) for b in i.body for x in ast.walk(b)) and ((var in norm(i.test) and any(k in norm(i.test) for k in ("== 0", "not " + var, "< 1", "<= 0"))) or "is_locked" in norm(i.test) or "_lock_mode" in norm(i.test))]
+            ctx.check("K10-unlock-refuses-at-zero", f"{rel_}:{q_}", bool(refuse), f"{q_} refuses (raises / returns the not-held result) before it counts {var} down from zero", message=f"{q_} decrements {var} without a guard for zero: an unmatched unlock() drives the count negative, the next lock call finds a count other than 'first lock' and returns without locking anything underneath")
+    ctx.require(n_cnt >= 8, f"only {n_cnt} counting unlock methods found (hand-confirmed: 10)")
     ctx.extra["typestate"] = stats
     ctx.extra["states"] = sum(s["states"] for s in stats.values())
     ctx.extra["transitions"] = sum(s["transitions"] for s in stats.values())
@@ -453,6 +504,8 @@ LF = "breezy/bzr/lockable_files.py"
 PR = "breezy/bzr/pack_repo.py"
 
 MUTANTS = [
+    Mutant("git branch keeps its ref lock when the repository refuses (fix fbb8084 reverted)", "breezy/git/branch.py", "        try:\n            self.repository.lock_write()\n        except BaseException:\n            # Undo what this call did, as a failed unlock() would not.\n            self._lock_count -= 1\n            if self._lock_count == 0:\n                self._unlock_ref()\n                self._lock_mode = None\n            raise\n", "        self.repository.lock_write()\n", expect="K9-own-lock-undone-when-dependency-refuses"),
+    Mutant("memory tree unlock counts below zero (fix d59fbca reverted)", "breezy/bzr/memorytree.py", "        if self._locks == 0:\n            raise errors.LockNotHeld(self)\n        if self._locks == 1:\n            self._basis_tree = None\n", "        if self._locks == 1:\n            self._basis_tree = None\n", expect="K10-unlock-refuses-at-zero"),
     Mutant("branch unlock releases the repository unconditionally again", "breezy/bzr/branch.py", "            if was_locked and not self.control_files.is_locked():\n", "            if not self.control_files.is_locked():\n", expect="K8-overunlock-leaves-others"),
     Mutant("remote branch unlock loses its not-held guard", "breezy/bzr/remote.py", "        \"\"\"Release the lock on this branch.\"\"\"\n        if not self._lock_count:\n            return lock.cant_unlock_not_held(self)\n", "        \"\"\"Release the lock on this branch.\"\"\"\n", expect="K8-overunlock-leaves-others"),
     Mutant("git tree records the write lock before taking index.lock", "breezy/git/workingtree.py", "        if not self._lock_mode:\n            try:\n                self._index_file = GitFile(", "        if not self._lock_mode:\n            self._lock_mode = \"w\"\n            self._lock_count = 1\n            try:\n                self._index_file = GitFile(", expect="K3-acquisition-unwinds"),
